@@ -56,6 +56,10 @@ type scase struct {
 	// Pass: one side's message TYPE is not the other's (pass.go: empty | other | wide): a real connection carries
 	// bytes, so fields the receiver's type does not declare survive as unknown fields; messages are read back from
 	// their re-encoding. The model's messages are payload numbers: the transcript must be the one without the option.
+	// Watch: the handler ties a helper goroutine to its context right before it returns (a subscription clean-up,
+	// `go func() { <-ctx.Done(); … }()`): a real gRPC server ends the handler's context when the handler returns, so the
+	// helper ends with the call whatever the caller does with its own context afterwards.
+	Watch bool   `json:"watch,omitempty"`
 	Async bool   `json:"async,omitempty"`
 	Amp   int    `json:"amp,omitempty"`
 	Reuse bool   `json:"reuse,omitempty"`
@@ -75,6 +79,9 @@ func (c scase) key() string {
 	}
 	if c.Pass != "" {
 		k += " pass=" + c.Pass
+	}
+	if c.Watch {
+		k += " watch"
 	}
 	return k
 }
